@@ -6,8 +6,8 @@ orchestrator's own indirections where they exist (`_get_stage_callable` looks `t
 `reflect` up on the package `clematis.engine.orchestrator`; `t3_deliberate` / `t3_dialogue` are looked up on
 the same package; `t4_filter`, `apply_changes`, `load_latest_snapshot`, `gel_*`, `build_llm_adapter`,
 `emit_trace`, `log_t3_reflection` are module globals of `clematis.engine.orchestrator.core`).
-Logs and snapshots ALWAYS go to a scratch directory (env `CLEMATIS_LOG_DIR`, `CLEMATIS_SNAPSHOT_DIR` and
-`t4.snapshot_dir` are forced), never into the repo.
+Logs, snapshots and T2 shadow traces ALWAYS go to a scratch directory (env `CLEMATIS_LOG_DIR`,
+`CLEMATIS_SNAPSHOT_DIR`, `t4.snapshot_dir` and `perf.metrics.trace_dir` are forced), never into the repo or the cwd.
 
 API (import as `from harness.lib import turnrig as TR`)
 -------------------------------------------------------
@@ -40,7 +40,17 @@ API (import as `from harness.lib import turnrig as TR`)
       {"mode":"stub","ret": <spec>}        scripted recording stub; `ret` is a JSON-able spec turned into the
                                            object the orchestrator expects (see `_make_ret`)
       {"mode":"stub","ret":..,"raise_nth":k,"exc":..}  stub that raises on its k-th call
-    Convenience: `TR.fault(site, exc, nth=None)`, `TR.stub(site, ret)`.
+    Convenience: `TR.fault(site, exc, nth=None)`, `TR.stub(ret, raise_nth=None, exc=...)`.
+    Sites: stages `t1 t2 deliberate rag speak llm_speak dialogue t4 apply health`; run_turn subsystems `boot_load
+    gel_observe gel_tick gel_merge_candidates gel_apply_merge gel_split_candidates gel_apply_split gel_promote_clusters
+    gel_apply_promotion adapter_build t3_trace t3_trace_logs reflect_run reflect reflect_write reflect_log`; T2 quality
+    `hybrid_rerank quality_fuse quality_mmr quality_trace quality_cfgsnap`; apply/snapshot `write_snapshot sidecar_write
+    sidecar_created_at sidecar_atomic cache_invalidate store_apply_batch store_apply_each store_apply_all`.
+    Stub `ret` specs: t1 {"metrics"}, t2 {"metrics","retrieved":[{id,score,text}]}, deliberate {"ops":[{kind,..}],
+    "reflection","deltas":[[kind,id,attr,delta,op_idx?]]}, rag {"plan":<deliberate spec>,"metrics"}, speak/llm_speak/
+    dialogue {"utter","metrics"}, t4 {"approved":[delta..],"rejected":[[kind,idx]],"reasons","metrics"}, apply {...},
+    reflect {"summary","entries":[{text}],"metrics"}; anything else is returned as given (deep-copied); a list `ret`
+    for a non-list-valued site is a per-call script.
     Exceptions: names from `EXC_POOL` (KeyError, OSError, ValueError, RecursionError, RigFault (custom), ...).
 `Run` fields
     result      {"line": str, "events": list} or None when run_turn raised
@@ -244,7 +254,10 @@ class World:
 
 def _validated_cfg(spec: dict, snap_dir: Path) -> Dict[str, Any]:
     over = deep_merge(RIG_CFG_DEFAULTS, spec.get("cfg") or {})
-    over = deep_merge(over, {"t4": {"snapshot_dir": str(snap_dir)}})
+    # every path the real code may write to is forced into scratch: snapshots and the T2 shadow-trace file
+    # (`quality_trace.emit_trace` writes <perf.metrics.trace_dir>/rq_traces.jsonl, default ./logs/quality)
+    over = deep_merge(over, {"t4": {"snapshot_dir": str(snap_dir)},
+                             "perf": {"metrics": {"trace_dir": str(snap_dir.parent / "qtraces")}}})
     if spec.get("cfg_raw"):
         return over
     from configs.validate import validate_config  # type: ignore
@@ -546,6 +559,8 @@ def _patched(run: Run, behaviours: Dict[str, dict], world: World):
             if mode == "stub":
                 if site == "hybrid_rerank":
                     return (args[2], {})
+                if site == "quality_fuse" and beh.get("ret") is None:
+                    return ([], {})          # idle fusion: proposes nothing
                 ret = beh.get("ret")
                 if isinstance(ret, list) and site not in ("gel_merge_candidates", "gel_split_candidates",
                                                           "gel_promote_clusters", "quality_fuse", "quality_mmr"):
